@@ -100,8 +100,10 @@ func c06Walk(ctx context.Context, s logical.Storage, prefix string, fn func(key 
 func c06Namespaces(v *vCore) []*namespace.Namespace {
 	out := []*namespace.Namespace{namespace.RootNamespace}
 	ctx := namespace.RootContext(context.Background())
-	if ns, err := v.Core.namespaceStore.GetNamespaceByPath(ctx, "ns1/"); err == nil && ns != nil && ns.ID != namespace.RootNamespaceID {
-		out = append(out, ns)
+	for _, p := range []string{"ns1/", "ns1/ns2/"} {
+		if ns, err := v.Core.namespaceStore.GetNamespaceByPath(ctx, p); err == nil && ns != nil && ns.ID != namespace.RootNamespaceID && ns.Path == p {
+			out = append(out, ns)
+		}
 	}
 	return out
 }
@@ -379,22 +381,33 @@ func c06Variants() []c06Variant {
 	}
 	// leased secrets
 	for _, caller := range []string{"service", "batch-child", "batch-orphan", "limited", "lastuse"} {
-		for _, ns := range []string{"", "ns1/", "cross"} {
+		for _, ns := range []string{"", "ns1/", "cross", "ns1/ns2/", "cross12", "cross02"} {
 			for _, wrap := range []bool{false, true} {
 				for _, upd := range []bool{false, true} {
 					v := c06Variant{Kind: "secret", Caller: caller, NS: ns, Wrap: wrap, Update: upd}
-					if ns == "cross" {
+					if strings.HasPrefix(ns, "cross") {
+						// the token lives in an ancestor namespace of the mount that leases the secret
 						if caller != "service" && caller != "batch-child" {
 							continue
 						}
-						v.NS, v.TokNS = "ns1/", "root"
+						switch ns {
+						case "cross":
+							v.NS, v.TokNS = "ns1/", "root"
+						case "cross12":
+							v.NS, v.TokNS = "ns1/ns2/", "ns1/"
+						case "cross02":
+							v.NS, v.TokNS = "ns1/ns2/", "root"
+						}
+					}
+					if (ns == "ns1/ns2/" || ns == "cross12" || ns == "cross02") && (upd || (caller != "service" && caller != "batch-child")) {
+						continue
 					}
 					v.Refused = caller == "lastuse"
 					v.Name = fmt.Sprintf("secret/%s/ns=%s/wrap=%v/upd=%v", caller, ns, wrap, upd)
 					// quick subset: every caller / namespace / wrap combination as a read, plus updates by a service token
 					switch caller {
 					case "service":
-						v.Quick = !upd || !wrap
+						v.Quick = (!upd || !wrap) && ns != "ns1/ns2/" && (ns != "cross02" || !wrap) && (ns != "cross12" || wrap)
 					case "batch-child":
 						v.Quick = !upd && (ns == "" || (ns == "ns1/" && wrap) || (ns == "cross" && !wrap))
 					case "batch-orphan":
@@ -422,6 +435,10 @@ func c06Variants() []c06Variant {
 				}
 			}
 		}
+	}
+	for _, wrap := range []bool{false, true} {
+		add(c06Variant{Name: fmt.Sprintf("login/service/ns=ns1/ns2//wrap=%v/alias=true", wrap), Kind: "login", Caller: "none", TokType: "service", NS: "ns1/ns2/", Wrap: wrap, Alias: true})
+		add(c06Variant{Name: fmt.Sprintf("create/child/ns=ns1/ns2//wrap=%v", wrap), Kind: "create", Create: "child", Caller: "service", TokType: "service", NS: "ns1/ns2/", Wrap: wrap})
 	}
 	add(c06Variant{Name: "login/service/dotdot", Kind: "login", Caller: "none", TokType: "service", DotDot: true, Refused: true, Quick: true})
 	add(c06Variant{Name: "login/service/dotdot/ns1/alias", Kind: "login", Caller: "none", TokType: "service", NS: "ns1/", Alias: true, DotDot: true, Refused: true, Quick: true})
@@ -452,9 +469,12 @@ func c06Variants() []c06Variant {
 
 func c06Boot(t *testing.T, transactional, cache bool) *vCore {
 	v := vBoot(t, vOpts{Transactional: transactional, Cache: cache})
-	for _, ns := range []string{"", "ns1/"} {
-		if ns != "" {
+	for _, ns := range []string{"", "ns1/", "ns1/ns2/"} {
+		switch ns {
+		case "ns1/":
 			v.MustDo(vReq{Op: logical.UpdateOperation, Path: "sys/namespaces/ns1", Token: v.Root})
+		case "ns1/ns2/":
+			v.MustDo(vReq{Op: logical.UpdateOperation, Path: "sys/namespaces/ns2", Token: v.Root, NS: "ns1/"})
 		}
 		v.Policy("c06", c06Policy, ns)
 		v.Mount("c06rec", "verifrec", ns, nil)
@@ -468,7 +488,7 @@ func c06Boot(t *testing.T, transactional, cache bool) *vCore {
 // "before" sets of every case are not empty.
 func c06Populate(t *testing.T, v *vCore, rng *kit.Rand) {
 	for i := 0; i < 2+rng.Intn(3); i++ {
-		ns := kit.Pick(rng, []string{"", "", "ns1/"})
+		ns := kit.Pick(rng, []string{"", "", "ns1/", "ns1/ns2/"})
 		tok, resp, err := v.CreateToken(v.Root, map[string]any{"policies": []string{"c06"}, "ttl": "2h"}, false, ns)
 		if tok == nil {
 			t.Fatalf("verif: population token: %s", vErrStr(resp, err))
@@ -1040,6 +1060,15 @@ func (c *c06Case) cleanup(r *kit.Result, caseID string, s1 *c06State, held c06Pa
 
 // ------------------------------------------------------------------ fault enumeration
 
+func c06Hash(x string) uint64 {
+	h := uint64(14695981039346656037)
+	for i := 0; i < len(x); i++ {
+		h ^= uint64(x[i])
+		h *= 1099511628211
+	}
+	return h
+}
+
 const c06ClassX1 = "C06-X1-cross-namespace-lease-survives-token-revocation"
 
 // c06Unclassified counts violations other than the narrowly classified cross-namespace finding
@@ -1051,13 +1080,11 @@ func c06Unclassified(r *kit.Result) int {
 func c06Pick(vars []c06Variant) []c06Variant {
 	shard, shards := kit.Shard()
 	var out []c06Variant
-	n := 0
 	for _, vr := range vars {
 		if kit.Tier() == "quick" && !vr.Quick {
 			continue
 		}
-		n++
-		if n%shards != shard {
+		if int(c06Hash(vr.Name)%uint64(shards)) != shard {
 			continue
 		}
 		out = append(out, vr)
@@ -1072,10 +1099,10 @@ func TestVerif_C06_Faults(t *testing.T) {
 	r.Exhaustive = true
 	defer r.Write(t)
 	vars := c06Pick(c06Variants())
-	rounds := kit.N(1, 3)
+	rounds := kit.N(1, 4)
 	for round := 0; round < rounds; round++ {
 		for _, tx := range []bool{false, true} {
-			cache := round == 1 // thorough: one round with the physical cache on
+			cache := round%2 == 1 // thorough: every other round with the physical cache on
 			rng := kit.NewRand(seed, uint64(round*1000+shard*10)*2+map[bool]uint64{true: 1, false: 0}[tx])
 			var v *vCore
 			for vi, vr := range vars {
@@ -1114,7 +1141,12 @@ func TestVerif_C06_Faults(t *testing.T) {
 
 func c06FaultVariant(t *testing.T, v *vCore, r *kit.Result, rng *kit.Rand, vr c06Variant, tx bool, round int) {
 	base := fmt.Sprintf("fault:%v:%d:%s", tx, round, vr.Name)
+	if oc := kit.OnlyCase(); oc != "" && !strings.HasPrefix(oc, base+":") {
+		return // replaying a case of another variant
+	}
+	rng = kit.NewRand(kit.Seed(6), c06Hash(base)) // per-variant stream: a replay draws the same parameters
 	run := func(caseID string, failAt int) (fired bool, faulted kit.Event, vd c06Verdict, ok bool) {
+		rng := kit.NewRand(kit.Seed(6), c06Hash(caseID)) // per-case stream: a replay draws the same parameters
 		c := c06NewCase(v, vr, tx, rng)
 		if err := c.setup(); err != nil {
 			r.Inconc("%s: fixture failed: %v", caseID, err)
@@ -1264,7 +1296,7 @@ func TestVerif_C06_Crash(t *testing.T) {
 		rng := kit.NewRand(seed, uint64(500000+shard*10)*2+map[bool]uint64{true: 1, false: 0}[tx])
 		c06Populate(t, v, rng)
 		for vi, vr := range vars {
-			if kit.Tier() == "quick" && (vi+ti)%2 != 0 {
+			if kit.Tier() == "quick" && (vi+ti)%2 != 0 && kit.OnlyCase() == "" {
 				continue // quick: each variant on one of the two store kinds
 			}
 			if vr.Caller == "lastuse" {
@@ -1289,6 +1321,10 @@ func TestVerif_C06_Crash(t *testing.T) {
 
 func c06CrashVariant(t *testing.T, v *vCore, r *kit.Result, rng *kit.Rand, vr c06Variant, tx bool) {
 	base := fmt.Sprintf("crash:%v:%s", tx, vr.Name)
+	if oc := kit.OnlyCase(); oc != "" && !strings.HasPrefix(oc, base+":") {
+		return // replaying a case of another variant
+	}
+	rng = kit.NewRand(kit.Seed(6), c06Hash(base)) // per-variant stream: a replay draws the same parameters
 	c := c06NewCase(v, vr, tx, rng)
 	if err := c.setup(); err != nil {
 		r.Inconc("%s: fixture failed: %v", base, err)
